@@ -718,6 +718,52 @@ R.spec_funcs.update({
     "merged_cookies": lambda it, case_cookies, kw: {**(case_cookies or {}), **(kw.get("cookies") or {})},
 })
 
+
+# ------------------------------------------------------------------------------------------------- get_serializers_for_operation: each location's serializer under the name of ITS container
+R.nominal_methods["spec:SerializableOp"] = {"get_parameter_serializer": lambda it, obj, a, k: obj.fields["serializers"].get(a[0])}
+R.module_values[SER.rstrip(":") + ":LOCATION_TO_CONTAINER"] = {"path": "path_parameters", "query": "query", "header": "headers", "cookie": "cookies", "body": "body"}
+R.contract(
+    SER + "get_serializers_for_operation",
+    prop="C06",
+    args={"operation": Obj("spec:SerializableOp", serializers=DictOf(optional={"path": Opq("PathSerializer"), "query": Opq("QuerySerializer"), "header": Opq("HeaderSerializer"), "cookie": Opq("CookieSerializer")}))},
+    raises=[],
+    ensures={
+        "each_locations_serializer_under_its_own_container": "all(({'path': 'path_parameters', 'query': 'query', 'header': 'headers', 'cookie': 'cookies'}[loc] in result and "
+                                                             "result[{'path': 'path_parameters', 'query': 'query', 'header': 'headers', 'cookie': 'cookies'}[loc]] is operation.serializers[loc]) for loc in operation.serializers)",
+        "nothing_for_locations_without_one": "length(result) == length(operation.serializers)",
+    },
+)
+# ------------------------------------------------------------------------------------------------- multipart bodies
+R.contract(TR + "_prepare_form_data", args={"data": Opq("Any")}, returns=lambda it, env: ("prepared-form", env["data"]), trusted=True, note="coerces values that cannot be sent as multipart to bytes")
+R.contract(TR + "choose_boundary", args={}, returns=Str, trusted=True, note="random boundary")
+R.contract(TR + "_encode_multipart", args={"value": Opq("Any"), "boundary": Opq("Any")}, returns=lambda it, env: ("encoded", env["value"], env["boundary"]), trusted=True, note="wraps a non-object value in a boundary")
+R.nominal_methods["spec:MultipartOp"] = {"prepare_multipart": lambda it, obj, a, k: (("files-of", a[0]), ("data-of", a[0]))}
+
+
+def _undecorated_multipart(it):
+    from pyvc.extract import load_module
+    from pyvc.values import VFunc
+
+    mod = load_module("schemathesis.transport.requests")
+    return VFunc(mod.defs["multipart_serializer"], mod, None, "multipart_serializer"), {}
+
+
+R.contract(
+    TR + "multipart_serializer",
+    prop="C06",
+    setup=_undecorated_multipart,
+    args={"ctx": Obj("spec:SerCtx", case=Obj("spec:SerCase", operation=Obj("spec:MultipartOp"))), "value": OneOf(DictOf(optional={"file": Opq("FileBytes"), "name": Str}), Const(b"raw"), Str)},
+    raises=[],
+    ensures={
+        # an object body is sent as multipart fields / files built from a COPY of the generated object (the case itself is not modified); raw bytes as they are
+        "object_bodies_become_fields_and_files_of_a_copy": "implies(is_instance(value, 'dict'), sorted(result) == ['data', 'files'] and result['files'][0] == 'files-of' and result['data'][0] == 'data-of' and "
+                                                           "result['files'][1][0] == 'prepared-form' and result['files'][1][1] == old(deep(value)) and not same_obj(result['files'][1][1], value) and value == old(deep(value)))",
+        "raw_bytes_are_sent_as_they_are": "implies(is_bytes(value), result == {'data': value})",
+        "other_values_are_wrapped_with_a_declared_boundary": "implies(not is_instance(value, 'dict') and not is_bytes(value), result['data'][0] == 'encoded' and result['headers']['Content-Type'] == 'multipart/form-data; boundary=' + result['data'][2])",
+    },
+)
+R.spec_funcs["same_obj"] = lambda it, a, b: a is b
+
 LEVEL_TEXT = ("Deductive: each style encoder against the wire form of the OpenAPI serialization table, serialize_case's query/cookie/method/url pass-through; "
               "arrays/objects explored up to a small size (labelled bounded). URL composition and the requests library are trusted. Level other.")
 LEVEL_NOTE = "Trusted: requests (E4), str.join/split inversion and urllib (E5), pyvc semantics (E9)."
